@@ -11,9 +11,9 @@ Import ListNotations.
 
 (* whenever a wait has got past its readFF (returned, or copying the result), every expected submission is in *)
 Theorem wait_after_all_submits :
-  forall (V : Type) (vop : V -> V -> V) (hd : bool) (iv junk : V) (ns : nat) (c : Z)
+  forall (V : Type) (vop : V -> V -> V) (hd : bool) (iv : V) (ns : nat) (c : Z)
          (progs : list (list (op V))) (sched : list nat) (i : nat) (t : thr V),
-    let s := exec V vop (start V hd iv junk ns c progs) sched in
+    let s := exec V vop (start V hd iv ns c progs) sched in
     clean V s -> nth_error (thrs s) i = Some t -> (t_got t <> [] \/ t_pc t = PCopy) -> all_arrived V s.
 Proof. exact wait_after_all_submits_start. Qed.
 Print Assumptions wait_after_all_submits.
@@ -28,7 +28,7 @@ Print Assumptions wait_after_all_submits_after_reset.
 
 (* the proviso is necessary: an expect that finds the count at zero lets a wait through with a submission outstanding *)
 Theorem wait_without_proviso_refuted :
-  let s := exec nat Nat.add (start nat true 0%nat 0%nat 1 1 w_progs) w_sched in
+  let s := exec nat Nat.add (start nat true 0%nat 1 1 w_progs) w_sched in
   exp0 s = true /\ over s = false /\
   (exists t, nth_error (thrs s) 2 = Some t /\ t_got t <> []) /\ (Z.of_nat (decs s) < c0 s + exps s)%Z /\ counter s = 1%Z.
 Proof. exact wait_without_proviso_refuted_lemma. Qed.
@@ -37,9 +37,9 @@ Print Assumptions wait_without_proviso_refuted.
 (* while a thread collates, and whenever ready is full, no submission is outstanding or between its slot update and
    its decrement: the collation reads every slot after all slot updates *)
 Theorem collate_sees_all :
-  forall (V : Type) (vop : V -> V -> V) (hd : bool) (iv junk : V) (ns : nat) (c : Z)
+  forall (V : Type) (vop : V -> V -> V) (hd : bool) (iv : V) (ns : nat) (c : Z)
          (progs : list (list (op V))) (sched : list nat),
-    let s := exec V vop (start V hd iv junk ns c progs) sched in
+    let s := exec V vop (start V hd iv ns c progs) sched in
     clean V s ->
     (forall i t, nth_error (thrs s) i = Some t -> isCol V t = true -> all_arrived V s) /\
     (ready s = true -> all_arrived V s).
@@ -48,9 +48,9 @@ Print Assumptions collate_sees_all.
 
 (* ... and from then on no submit or expect step can happen without breaking the proviso (slots are frozen) *)
 Theorem frozen_after_arrival :
-  forall (V : Type) (vop : V -> V -> V) (hd : bool) (iv junk : V) (ns : nat) (c : Z)
+  forall (V : Type) (vop : V -> V -> V) (hd : bool) (iv : V) (ns : nat) (c : Z)
          (progs : list (list (op V))) (sched : list nat) (i : nat) (s' : state V) (t : thr V),
-    let s := exec V vop (start V hd iv junk ns c progs) sched in
+    let s := exec V vop (start V hd iv ns c progs) sched in
     counter s = 0%Z -> nth_error (thrs s) i = Some t -> step V vop s i = Some s' -> clean V s' ->
     match t_pc t with PSlot _ _ | PDec _ | PAdd _ | PEmpty => False | _ => True end.
 Proof. exact frozen_after_arrival_start. Qed.
@@ -99,25 +99,16 @@ Theorem sinc_value_partial_collation :
 Proof. exact collate_of_slots. Qed.
 Print Assumptions sinc_value_partial_collation.
 
-(* a sinc created for zero submissions delivers the never-written result buffer, not the initial value *)
-Theorem sinc_value_zero_count_refuted :
-  let s := exec nat Nat.add (start nat true 0%nat 77%nat 1 0 [[Wait true]]) [0;0]%nat in
-  exp0 s = false /\ over s = false /\
-  (exists t, nth_error (thrs s) 0 = Some t /\ t_got t = [Some 77%nat]) /\ reduce nat Nat.add (submitted s) 0%nat = 0%nat.
-Proof. exact sinc_value_zero_count_refuted_lemma. Qed.
-Print Assumptions sinc_value_zero_count_refuted.
-
-(* reset: with n <> 0, or n = 0 on a completed sinc, the state IS that of a freshly initialised sinc (whose
-   never-written result buffer happens to hold the old result) *)
+(* reset: with n <> 0, or n = 0 on a completed sinc, the state IS that of a freshly initialised sinc *)
 Theorem reset_fresh :
   forall (V : Type) (s : state V) (n : Z) (progs : list (list (op V))),
-    n <> 0%Z -> reset V s n progs = start V (hasdata s) (initv s) (result s) (nslots s) n progs.
+    n <> 0%Z -> reset V s n progs = start V (hasdata s) (initv s) (nslots s) n progs.
 Proof. exact reset_fresh_pos. Qed.
 Print Assumptions reset_fresh.
 
 Theorem reset_fresh_zero_after_completion :
   forall (V : Type) (s : state V) (progs : list (list (op V))),
-    ready s = true -> reset V s 0 progs = start V (hasdata s) (initv s) (result s) (nslots s) 0 progs.
+    ready s = true -> reset V s 0 progs = start V (hasdata s) (initv s) (nslots s) 0 progs.
 Proof. exact reset_fresh_zero_complete. Qed.
 Print Assumptions reset_fresh_zero_after_completion.
 
@@ -125,6 +116,6 @@ Print Assumptions reset_fresh_zero_after_completion.
 Theorem reset_zero_incomplete_differs :
   forall (V : Type) (s : state V) (progs : list (list (op V))),
     ready s = false ->
-    ready (reset V s 0 progs) = false /\ ready (start V (hasdata s) (initv s) (result s) (nslots s) 0 progs) = true.
+    ready (reset V s 0 progs) = false /\ ready (start V (hasdata s) (initv s) (nslots s) 0 progs) = true.
 Proof. exact reset_zero_incomplete_differs_lemma. Qed.
 Print Assumptions reset_zero_incomplete_differs.
